@@ -240,6 +240,18 @@ Fixpoint plain (acc : list otok) (ts : list tok) : option (list otok) :=
   end.
 Definition split_line (ts : list tok) : option (list otok) := plain [] ts.
 
+(* domain.pkg_use: the split line becomes ONE chunk, split_negations(stable_unique(tokens)) *)
+Fixpoint uniq (seen l : list N) : list N :=
+  match l with
+  | [] => []
+  | x :: r => if mem x seen then uniq seen r else x :: uniq (x :: seen) r
+  end.
+Definition negs (o : list otok) : list N :=
+  flat_map (fun t => match t with ONeg f => [f] | OStar => [0] | ONegPre p => [p] | OPos _ => [] end) o.
+Definition poss (o : list otok) : list N :=
+  flat_map (fun t => match t with OPos f => [f] | _ => [] end) o.
+Definition to_chunk (o : list otok) : chunk := mkc KAll (uniq [] (negs o)) (uniq [] (poss o)).
+
 (* ---------------------------------------------------------------- encoders for the harness *)
 Definition universe : list N := [10; 11; 12; 13; 14; 100; 101; 200].
 Definition pkgs : list pkg := [(0, 1); (0, 2); (1, 1); (1, 2); (2, 1); (2, 2)].
@@ -279,4 +291,7 @@ Definition enc_otok (t : otok) : Z :=
   | ONegPre p => Z.of_N (3000 + p)
   end.
 Definition run_split (ts : list tok) : val :=
-  match split_line ts with None => VNone | Some o => vz (map enc_otok o) end.
+  match split_line ts with
+  | None => VNone
+  | Some o => VL [vz (map enc_otok o); vz (zl (neg (to_chunk o))); vz (zl (pos (to_chunk o)))]
+  end.
